@@ -301,3 +301,16 @@ package bt
 //@   pure
 //@ func bt.(*Tx).toBytesHelper
 //@   pure
+//@ func bt.(*Tx).Size
+//@   ensures[size_is_ser_len] (and (= result (spec.ser_len tx)) (<= 0 result))
+//@   trusted "ser_len is the abstract serialised length; len(Bytes()) is tied to the wire format under C01"
+
+//@ func bt.(*Tx).SizeWithTypes
+//@   ensures[C11.size_total] (= (. result TotalBytes) (old (spec.ser_len tx)))
+
+//@ func bt.(*Tx).IsFeePaidEnough
+//@   requires (spec.out_scripts_nonnil tx) (spec.inputs_nonnil tx)
+//@   requires (=> (not (nil? fees)) (spec.wf_quote fees))
+//@   requires (< (spec.sum_in tx) 18446744073709551616) (< (spec.sum_out tx) 18446744073709551616) (<= 0 (spec.sum_in tx)) (<= 0 (spec.sum_out tx))
+//@   requires (<= (spec.data_bytes tx) (spec.ser_len tx)) (<= (spec.ser_len tx) 2199023255552)
+//@   ensures[C11.fee_paid_enough_iff] (=> (= err nil) (= r0 (and (>= (old (spec.sum_in tx)) (old (spec.sum_out tx))) (>= (- (old (spec.sum_in tx)) (old (spec.sum_out tx))) (spec.quoted fees (- (old (spec.ser_len tx)) (old (spec.data_bytes tx))) (old (spec.data_bytes tx)))))))
